@@ -62,13 +62,28 @@ def score_events(order: str, r) -> List[Dict[str, Any]]:
             # object sent to a worker process): it must still be the same contract
             import copy
             import pickle
-            how = ['copy', 'deepcopy', 'pickle'][(k // 5) % 3]
+            how = ['copy', 'deepcopy', 'pickle', 'replace', 'fields'][(k // 5) % 5]
             e2 = dict(e, tid=f'{order[0]}{k}.{how}')
             for key in ('raised', 'res', 'msg'):
                 e2.pop(key, None)
             try:
-                c2 = copy.copy(c) if how == 'copy' else copy.deepcopy(c) if how == 'deepcopy' \
-                    else pickle.loads(pickle.dumps(c))
+                if how in ('replace', 'fields'):
+                    # the contract is DERIVED from another one that was scored before
+                    # (the same bid by the other side, other vulnerability, other doubling)
+                    import dataclasses
+                    base = Contract(Bid.int_to_bid(b), x=not x, xx=False, vul=Vul((v + 1 + k % 3) % 4 + 1),
+                                    declarer=Player((d + 1) % 4 + 1))
+                    score.calc_score(base, t)
+                    kw = dict(x=x, xx=xx, vul=Vul(v + 1), declarer=Player(d + 1))
+                    if how == 'replace':
+                        c2 = dataclasses.replace(base, **kw)
+                    else:
+                        f = {fl.name: getattr(base, fl.name) for fl in dataclasses.fields(base) if fl.init}
+                        f.update(kw)
+                        c2 = Contract(**f)
+                else:
+                    c2 = copy.copy(c) if how == 'copy' else copy.deepcopy(c) if how == 'deepcopy' \
+                        else pickle.loads(pickle.dumps(c))
                 e2.update(_call(score.calc_score, c2, t))
             except Exception as ex:  # noqa
                 e2.update({'raised': True, 'res': 0, 'msg': f'{how}: {type(ex).__name__}'})
